@@ -99,6 +99,12 @@ def one(emit, cid, fam, rng, sample):
             else:
                 est = E.Lasso(alpha=alpha, positive=pos, fit_intercept=icpt, max_epochs=10000, **skw).fit(X, y)
             res["skglm.estimator"] = (full(est.coef_, est.intercept_), tol if est.stop_crit_ <= tol else None, True)
+            # the same estimator used the way a path / grid search uses it: warm-started from the fit at another alpha
+            est.set_params(warm_start=True, alpha=alpha * 3.0)
+            est.fit(X, y)
+            est.set_params(alpha=alpha)
+            est.fit(X, y)
+            res["skglm.estimator(warm refit)"] = (full(est.coef_, est.intercept_), tol if est.stop_crit_ <= tol else None, True)
             w, _, st = S.ProxNewton(tol=tol, fit_intercept=icpt, max_iter=500).solve(X, y, cc(D.Quadratic()), cc(mkpen()))
             res["skglm.ProxNewton"] = (w, tol if st <= tol else None, True)
             if not icpt:
@@ -127,6 +133,11 @@ def one(emit, cid, fam, rng, sample):
             prob = R.RefProblem(X, y, R.RefDatafit("logistic"), R.RefPenalty("l1", alpha=alpha), False)
             est = E.SparseLogisticRegression(alpha=alpha, fit_intercept=False, tol=tol, max_iter=200, max_epochs=1000).fit(X, y)
             res["skglm.estimator"] = (np.ravel(est.coef_), tol if est.stop_crit_ <= tol else None, True)
+            est.set_params(warm_start=True, alpha=alpha * 3.0)
+            est.fit(X, y)
+            est.set_params(alpha=alpha)
+            est.fit(X, y)
+            res["skglm.estimator(warm refit)"] = (np.ravel(est.coef_), tol if est.stop_crit_ <= tol else None, True)
             w, _, st = S.AndersonCD(tol=tol, fit_intercept=False, max_iter=300, max_epochs=10000).solve(X, y, cc(D.Logistic()), cc(P.L1(alpha)))
             res["skglm.AndersonCD"] = (w, tol if st <= tol else None, True)
             w, _, st = S.FISTA(tol=tol, max_iter=50000).solve(X, y, cc(D.Logistic()), cc(P.L1(alpha)))
